@@ -40,6 +40,11 @@ class ConvHooks(Hooks):
             for fr2 in st.frames[:-1]:
                 loops2, _b = loop_info(fr2.fn)
                 if any(fr2.block in body for body in loops2.values()):
+                    # ... one that runs up to a small constant (a block of units examined at a time) is interpreted exactly
+                    from .own import const_trip_bound
+                    k = const_trip_bound(fn, header)
+                    if k is not None and k <= 64:
+                        return k + 2
                     return self.inner_unroll
         loops, back = loop_info(fn)
         for h2, body in loops.items():
